@@ -128,7 +128,7 @@ def run_process(cicada, cases, mode):
             rc, out, err = proc.run_script(cicada, line + "\n", sb, extra_env={"STAGE_LOG": log}, name="s%d.sh" % i)
         ids = []
         if os.path.exists(log):
-            ids = [x for x in open(log).read().split("\n") if x]
+            ids = [x.split(":")[0] for x in open(log).read().split("\n") if x]
             os.remove(log)
         segs = c.meta["segs"]
         sts = c.meta["sts"]
